@@ -3,11 +3,12 @@ import Splipy.Model.IOTokens
 import Splipy.Model.IOMesh
 import Splipy.Model.IOPrims
 import Splipy.Model.IOObjects
+import Splipy.Model.IOFiles
 
 /-!
 Protocol ops of property C19 (everything at `K = ℚ`).
 
-Token encoding (both directions): a plain number = `Token.num`, `[i,n]` = `Token.int n`,
+Token encoding (both directions): a plain number = `Token.num`, `[i,n]` = `Token.int n` (canonical spelling), `[j,n]` = `Token.intNC n` (`00`, `+1`, …),
 `[w,word]` = `Token.word`, the bare word `nl` = line end.
 Object encoding as in `vlib.gen.enc_object`: `[[bases],[n1,..,nd,ncomp],[flat C order],rational]`.
 -/
@@ -17,6 +18,7 @@ open Splipy Splipy.Driver Splipy.FileIO
 
 def encTok : Token ℚ → Val
   | .int n => .list [.str "i", Val.ofInt n]
+  | .intNC n => .list [.str "j", Val.ofInt n]
   | .num x => .num x
   | .word s => .list [.str "w", .str s]
   | .nl => .str "nl"
@@ -25,6 +27,7 @@ def decTok : Val → Option (Token ℚ)
   | .num x => some (.num x)
   | .str "nl" => some .nl
   | .list [.str "i", v] => v.toInt?.map .int
+  | .list [.str "j", v] => v.toInt?.map .intNC
   | .list [.str "w", .str s] => some (.word s)
   | .list [.str "w", .num q] => some (.word (Val.ratToString q))
   | _ => none
@@ -85,6 +88,15 @@ def stlSurface (du dv : ℕ × List ℚ × Option ℕ) : Except PyErr (List ℚ 
   let v ← stlParams dv.1 dv.2.1 dv.2.2
   return (u, v, stlTriangles u.length v.length)
 
+def decAux (av : Val) : Option (PrimAux ℚ) := do
+  match ← av.toList? with
+  | [kv, nv, lv, zv] =>
+    match ← kv.toRats?, ← nv.toRats? with
+    | [kp, kw, ks], [ct, st, cp, sp] =>
+      some { k := ⟨kp, kw, ks⟩, a := ⟨ct, st, cp, sp⟩, lam := ← lv.toRat?, znorm := ← zv.toRat? }
+    | _, _ => none
+  | _ => none
+
 def handle : Handler
   | "g2_write", [ovs] => some <| Id.run do
       let some ol := ovs.toList? | return bad
@@ -143,9 +155,30 @@ def handle : Handler
       let some ol := ovs.toList? | return bad
       let some os := ol.mapM decodeObj | return bad
       if os.any (fun o => o.pardim = 0 ∨ 3 < o.pardim) then return bad
-      match os.mapM (g2WriteObj tol) with
-      | .error e => return e.toVal
-      | .ok ts => return .list (ts.flatten.map encTok)
+      return ofExcept (fun ts => .list (ts.map encTok)) (g2WriteList tol os)
+  | "g2_read_mixed", [auxv, tolv, tv] => some <| Id.run do
+      -- auxv: one `[[pi,1/sqrt2,sqrt2],[ct,st,cp,sp],lam,|z|]` per primitive record, in file order
+      let some al := auxv.toList? | return bad
+      let some auxs := al.mapM decAux | return bad
+      let some tol := tolv.toRat? | return bad
+      let some toks := decToks tv | return bad
+      return ofExcept (fun its => .list (its.map fun it => match it with
+        | .spline o => encObj o
+        | .prim o => encodeObj o)) (g2ReadMixed auxs tol toks)
+  | "stl_file2", [tolv, ovs, nv] => some <| Id.run do
+      -- nv: -1 (None), n, or [nu, nv]
+      let some tol := tolv.toRat? | return bad
+      let some ol := ovs.toList? | return bad
+      let some os := ol.mapM decodeObj | return bad
+      let n : Option (Option (ℕ × ℕ)) :=
+        match nv with
+        | .list [a, b] => do let a ← a.toNat?; let b ← b.toNat?; pure (some (a, b))
+        | v => match v.toInt? with
+          | some k => if k < 0 then some none else some (some (k.toNat, k.toNat))
+          | none => none
+      let some n := n | return bad
+      return ofExcept (fun f => .list [Val.ofNat f.declared,
+        .list (f.records.map fun r => .list (r.map Val.ofRats))]) (stlFile tol os n)
   | "svg_roundtrip2", [wv, hv, mv, tolv, cv] => some <| Id.run do
       let some W := wv.toRat? | return bad
       let some H := hv.toRat? | return bad
@@ -153,6 +186,8 @@ def handle : Handler
       let some tol := tolv.toRat? | return bad
       let some cl := cv.toList? | return bad
       let some curves := cl.mapM decodeObj | return bad
+      -- `SVG.write`: every object is tested for `dimension == 2` when it is handed over
+      if let .error e := curves.mapM svgAccept then return e.toVal
       let some bb := svgBBox (curves.flatMap planarPts) | return bad
       let L := svgLayout W H m bb
       match curves.mapM (svgPath tol L) with
